@@ -929,6 +929,8 @@ func stressShared(seed int64, scale int) int {
 		{hp, to},
 		{rp, rlSmooth, cb},
 		{to, rp},
+		{hp, rp},         // hedge attempts share the inner retry executor: open known finding D4 under the race detector
+		{fb, hp, rp, cb}, // the same, with a breaker recording from the hedge goroutines
 	}
 	var executors []failsafe.Executor[int]
 	for _, s := range stacks {
@@ -949,7 +951,22 @@ func stressShared(seed int64, scale int) int {
 				return
 			default:
 			}
-			switch r.Intn(9) {
+			switch r.Intn(13) {
+			case 9:
+				cb.Open()
+			case 10:
+				cb.HalfOpen()
+			case 11:
+				cb.Close()
+			case 12:
+				_ = cb.Metrics().SuccessRate() + cb.Metrics().FailureRate() + cb.Metrics().Successes()
+				ctx, cancel := context.WithTimeout(context.Background(), 50*time.Microsecond)
+				if bh.AcquirePermit(ctx) == nil {
+					bh.ReleasePermit()
+				}
+				cancel()
+				_ = rl.TryAcquirePermits(2)
+				_ = rlSmooth.ReservePermit()
 			case 0:
 				cb.RecordFailure()
 			case 1:
